@@ -17,7 +17,7 @@ KF = {"KF-C04-1": "tie between exactly equal reachability values lost because ro
 
 def _vacuity(tot):
     if tot["nontrivial"] < 100:
-        raise par.HarnessError("C04 vacuity guard: %d" % tot["nontrivial"])
+        raise par.GuardError("C04 vacuity guard: %d" % tot["nontrivial"])
 
 
 def run(ctx):
